@@ -248,14 +248,21 @@ def gen_operand(rng, pool, ai, ctx, allow_sym=True, allow_shared=True):
         if rng.random() < 0.5:
             return {'k': 'map', 'keys': keys, 'vals': vals}
         return {'k': 'map', 'keys': [pool.name[k] for k in keys], 'vals': vals}
+    def spell(k):
+        # blades may be spelled with their indices in any order (e21 = -e12)
+        n = pool.name[k]
+        if len(n) > 2 and rng.random() < 0.35:
+            idx = list(n[1:])
+            rng.shuffle(idx)
+            return 'e' + ''.join(idx)
+        return n
     if u < 0.82:
         items = []
         for k, v in zip(keys, vals):
-            n = pool.name[k]
-            items.append([n, v])
+            items.append([spell(k), v])
         return {'k': 'kw', 'items': items}
     if u < 0.94:
-        terms = [[v, pool.name[k]] for k, v in zip(keys, vals)]
+        terms = [[v, spell(k)] for k, v in zip(keys, vals)]
         return {'k': 'bl', 'terms': terms, 'via': rng.choice(['item', 'attr'])}
     gs = sorted({grade(k) for k in keys})
     full = [k for k in pool.canon if grade(k) in gs]
